@@ -739,9 +739,9 @@ class XPathToken(Token[ta.XPathTokenType]):
                     _item += timezone.offset
                 elif not isinstance(item, Date):
                     _item += timezone.offset - _tzinfo.offset
-                elif timezone.offset < _tzinfo.offset:
-                    _item -= timezone.offset - _tzinfo.offset
-                    _item -= DayTimeDuration.fromstring('P1D')
+                else:
+                    # the date of the starting instant in the new timezone
+                    _item += DayTimeDuration.fromtimedelta(timezone.offset - _tzinfo.offset)
         except OverflowError as err:
             if isinstance(context, XPathSchemaContext):
                 return _item
